@@ -15,6 +15,7 @@ use std::cell::Cell;
 use std::collections::*;
 use std::fmt;
 use std::future::Future;
+use std::{cmp, mem, ptr};
 use std::panic;
 use std::pin::Pin;
 use std::sync::atomic::{AtomicUsize, Ordering as AtomicOrdering};
